@@ -161,7 +161,7 @@ static hshared_t* HS;
 #define CRASH_SKIP 12           /* after this many guard-page crashes of one kernel in one shard its remaining cases are skipped (and counted) */
 
 /* ---- guard arenas ------------------------------------------------------------ */
-#define BUFMAX 4096
+#define BUFMAX ((size_t)(8u << 20) + 4096)      /* large counts: up to 2^20 8-byte elements */
 static mc_arena_t AR[3];
 typedef struct { uint8_t* p; uint8_t* slack; size_t slack_n; int ai; } slot_t;
 #define SLACK_BYTE 0xC5
@@ -512,11 +512,17 @@ static void run_kernel(int ki) {
     char st[96]; snprintf(st, sizeof st, "%s.%s%s", k->isa, k->name, k->fam == F_MATCH_LEN_SEP ? "#separate-buffers" : "");
     mc_stage(st);
     bool first = true;
-    for (int count = cmin; count <= cmax; count++) {
-        int np = fam_npat(k, count);
+    /* after the contiguous small counts: counts around 2^16, 2^18 (and 2^20 for the byte kernels / thorough), where accumulators, tiles and
+     * size-gated fast paths change; fewer patterns, placements and misalignments there */
+    static const int LC[] = { 65535, 65536, 65537, 262143, 262144, 262145, 1048575, 1048576, 1048577, 1048699 };
+    int nlarge = k->fam == F_BITUNPACK ? 0 : (k->fam == F_MEMCPY || k->fam == F_MEMSET || mc_thorough()) ? 10 : 6;
+    for (int cidx = 0; cidx <= cmax - cmin + nlarge; cidx++) {
+        bool large = cidx > cmax - cmin; int count = large ? LC[cidx - (cmax - cmin) - 1] : cmin + cidx;
+        int np = fam_npat(k, count); if (large && np > 2) np = 2;
         for (int pat = 0; pat < np; pat++)
             for (int sides = 0; sides < (1 << nbuf); sides++)
                 for (int oi = 0; oi < (nbuf == 1 ? 1 : NMIS); oi++) {
+                    if (large && ((sides != 0 && sides != (1 << nbuf) - 1) || (oi != 0 && MIS[oi] != 5 && MIS[oi] != 48))) continue;
                     bool mine = mc_next();
                     bool was_first = first; first = false;
                     if (!mine) continue;
@@ -530,11 +536,11 @@ static void run_kernel(int ki) {
                     prepare(k, count, pat);
                     g_calls = 0;
                     if (nbuf == 1) {
-                        for (int i = 0; i < NMIS; i++) { mis[0] = MIS[i]; exec_one(ki, k, pat, side, mis); }
+                        for (int i = 0; i < NMIS; i++) { if (large && MIS[i] != 0 && MIS[i] != 5 && MIS[i] != 48) continue; mis[0] = MIS[i]; exec_one(ki, k, pat, side, mis); }
                     } else {
                         mis[0] = MIS[oi];
                         for (int i = 0; i < NMIS; i++) {
-                            mis[1] = MIS[i];
+                            mis[1] = MIS[i]; if (large && MIS[i] != 0 && MIS[i] != 5 && MIS[i] != 48) continue;
                             if (count > FULL_CROSS_MAX && mis[0] != 0 && mis[1] != 0 && mis[1] != mis[0]) continue;   /* axis-wise above the full-cross bound */
                             mis[2] = (mis[0] * 5 + mis[1] * 3 + count + pat) & 63;
                             exec_one(ki, k, pat, side, mis);
